@@ -136,6 +136,9 @@ struct WorldSpec {
     stdin_kind: StdinKind,
     /// with StdinKind::Trickle: where the slow producer pauses
     stdin_cuts: Vec<usize>,
+    /// the tool's clocks: (seconds away from the real time, milliseconds
+    /// that pass with every reading of a clock)
+    clock: Option<(i64, u64)>,
     env: Vec<(String, String)>,
     hash_seed: u64,
 }
@@ -467,7 +470,18 @@ fn gen_world(t: &mut Tape) -> WorldSpec {
         stdin_cuts.sort();
         stdin_cuts.dedup();
     }
+    // the tool lives at another time, and time passes quickly there (clock
+    // seam): what it prints does not depend on any clock
+    let clock = if tty == (false, false) && !stderr_tty && !removed_cwd && t.chance(1, 3) {
+        Some((
+            t.draw(2_000_000_000) as i64 - 1_000_000_000,
+            *t.pick(&[700u64, 1500, 2500, 61_000, 90_000]),
+        ))
+    } else {
+        None
+    };
     WorldSpec {
+        clock,
         stdin_cuts,
         stalled_reader,
         removed_cwd,
@@ -901,6 +915,14 @@ impl Property for C20 {
         };
         let mut env = w.env.clone();
         env.push(("RRSS_VERIF_HASH_SEED".into(), w.hash_seed.to_string()));
+        if let Some((offset_s, step_ms)) = w.clock {
+            let skew = procworld::clock_env(offset_s, step_ms);
+            if !skew.is_empty() {
+                stats.inc("fault.configured.clock_skew_and_fast_time");
+                stats.inc("fault.fired.clock_skew_and_fast_time");
+            }
+            env.extend(skew);
+        }
         let mut spec = ProcSpec {
             args: args.clone(),
             env,
